@@ -51,6 +51,17 @@ _REDUCERS = frozenset(
         np.any,
         np.argmax,
         np.argmin,
+        np.nansum,
+        np.nanprod,
+        np.nanmean,
+        np.nanstd,
+        np.nanvar,
+        np.nanmedian,
+        np.nanmax,
+        np.nanmin,
+        np.ptp,
+        np.count_nonzero,
+        np.linalg.norm,
     }
 )
 
@@ -213,6 +224,11 @@ class FeArray(np.ndarray):
             # broadcasting against a FeArray always keeps the (Ne, nPg) axes
             return res.view(FeArray)
         feShape = _FeShape(inputs)
+        if method == "reduce" and not _KeepsFeAxes(
+            kwargs.get("axis", 0), np.ndim(inputs[0])
+        ):
+            # ufunc.reduce consumed the element or Gauss-point axis (axis defaults to 0)
+            feShape = ()
         if isinstance(res, tuple):
             return tuple(FeArray.__wrap(array, feShape) for array in res)
         return FeArray.__wrap(res, feShape)
@@ -269,6 +285,24 @@ class FeArray(np.ndarray):
             return FeArray.asfearray(np.einsum("...ij,...j->...i", self, other))
         else:
             return self.dot(other)
+
+    def __rmatmul__(self, other) -> FeArrayALike:
+        # a plain array on the left is a constant tensor: same rank rule as `self @ constant`
+        # (without this numpy's matmul would contract the Gauss-point axis of the field)
+        other = np.asarray(other)
+        ndim1, ndim2 = other.ndim, self._ndim
+        if ndim1 == 2 and ndim2 == 2:
+            return FeArray.asfearray(np.einsum("ij,...jk->...ik", other, np.asarray(self)))
+        elif ndim1 == 2 and ndim2 == 1:
+            return FeArray.asfearray(np.einsum("ij,...j->...i", other, np.asarray(self)))
+        elif ndim1 == 1 and ndim2 == 2:
+            return FeArray.asfearray(np.einsum("i,...ij->...j", other, np.asarray(self)))
+        elif ndim1 == 1 and ndim2 == 1:
+            return FeArray.asfearray(np.einsum("i,...i->...", other, np.asarray(self)))
+        else:
+            raise TypeError(
+                "constant @ FeArray is defined for vectors and matrices only."
+            )
 
     @staticmethod
     @lru_cache(maxsize=16)
